@@ -169,6 +169,10 @@ func (r *lbRunner) end(rid, code int) {
 		// context.Canceled and the proxy answers 502 into the void - for the accounting a failed request on that backend
 		r.cancel[rid]()
 		modelCode = 502
+	case code >= 10000:
+		// 103 Early Hints, then the final status code - 10000
+		c.release <- rtOutcome{kind: "status", status: code - 10000, interim: true}
+		modelCode = code - 10000
 	default:
 		c.release <- rtOutcome{kind: "status", status: code}
 	}
@@ -314,9 +318,9 @@ func runLbCase(c *LbCase) (string, map[string]int) {
 			case x < 66 && len(r.order) > 0:
 				code := 200
 				if g.Chance(failBias) {
-					code = []int{500, 503, 502, 0, 0, -1, 404, 500, -3}[g.Intn(9)]
+					code = []int{500, 503, 502, 0, 0, -1, 404, 500, -3, 10500, 10503}[g.Intn(11)]
 				} else if g.Chance(20) {
-					code = []int{201, 204, 301, 404, 499}[g.Intn(5)]
+					code = []int{201, 204, 301, 404, 499, 10200}[g.Intn(6)]
 				}
 				op = LbOp{K: "end", Rid: r.order[g.Intn(len(r.order))], Code: code}
 			case x < 80:
